@@ -318,8 +318,11 @@ def gen_efuns(rng, tier, i):
                                'r = %s[%s];', 'r = %s[%s..];', 'r = %s[<%s];', 'r = %s[%s..<1];', 'r = (%s == %s);', 'r = (%s < %s);', 'r = %s << %s;',
                                't = %s; t += %s;', 't = %s; t -= %s;', 't = %s; t &= %s;', 't = %s; t |= %s;', 't = %s; t *= %s;', 't = %s; t /= %s;',
                                't = %s; t[0..1] = %s;', 't = %s; t[1..<1] = %s;', 't = %s; t[<2..] = %s;', 't = %s; t[0] = %s;', 't = %s; t[<1] = %s;',
-                               't = %s; t["k"] = %s;', 't = %s; t[0..0] = %s;', 'r = bind(%s, %s);', 'r = -%s + !%s;', 'r = %s ? %s : 0;', 'r = %s && %s;',
+                               't = %s; t["k"] = %s;', 't = %s; t[0..0] = %s;', 'r = bind(%s, %s);', 't = %s; r = bind(t, load_object("/mk")); r = %s;', 't = %s; r = evaluate(bind(t, load_object("/mk")), %s);', 'r = -%s + !%s;', 'r = %s ? %s : 0;', 'r = %s && %s;',
                                't = %s; t[0][0] = %s;', 't = %s; t->a = %s;', 'r = sizeof(%s - %s);', 't = %s; t++; t = %s; t--;'))
+            if 'bind(t' in form:
+                funs = [k for k in range(nv) if tclass(gval[k]) == 'fun']
+                A = 'g%d' % rng.choice(funs) if funs and rng.random() < 0.6 else '((mixed)%s)' % rng.choice(by_class['fun'])
             if re.search(r't(\[[^.\]]*\])+ = %s|t->a = %s', form):
                 # storing a container into itself would build a reference cycle (counts cannot come back): element stores take scalars
                 B = '((mixed)%s)' % rng.choice(('0', '7', '-1', '1.5', '"abc"', '"%s%d"', 'repeat_string("xy", 200)', '65536'))
